@@ -42,7 +42,13 @@ theorem check_true_inv {H : TagHash} (q s c : Bytes) (h : checkOutputPubkey o H 
 
 theorem byte_split : ∀ c : Fin 256, (c.val &&& 1) + (c.val &&& 254) = c.val := by decide +kernel
 
-theorem soundness_aux (L : Lawful o G) {H : TagHash} (h32 : Len32 H) (tree : Tree) (xb : Bytes)
+/-- `lift_x` answers an even-y point: all that soundness needs of the group.  True of `Btc.EC.ops C` for every
+    curve over an odd field size (`Proofs/C12/EC.lean`), so T3 is a theorem about the arithmetic the driver runs. -/
+def LiftEven (o : GroupOps α) : Prop := ∀ (x : Int) (P : α), o.liftX x = some P → o.y P % 2 = 0
+
+theorem liftEven_of_lawful (L : Lawful o G) : LiftEven o := fun x P h => (L.liftX_some x P h).2.2
+
+theorem soundness_aux (hev : LiftEven o) {H : TagHash} (h32 : Len32 H) (tree : Tree) (xb : Bytes)
     (hxb : xb.length = 32) (htree : ∀ s ∈ tree.scripts, s.length < 2 ^ 64)
     (q : Bytes) (par : Nat) (s' c' : Bytes) (hs' : s'.length < 2 ^ 64)
     (hq : tweakedPubkey o H (2 :: xb) (root H tree) = .ok (q, par))
@@ -85,14 +91,14 @@ theorem soundness_aux (L : Lawful o G) {H : TagHash} (h32 : Len32 H) (tree : Tre
   have hpt : pointFromOctets o (2 :: xb) = .ok P := by
     unfold pointFromOctets
     simp [hxb, hl]
-  obtain ⟨-, -, hyP⟩ := L.liftX_some _ _ hl
-  have hev : evenY o P = P := by
+  have hyP := hev _ _ hl
+  have hevP : evenY o P = P := by
     unfold evenY; rw [if_pos ((hasEvenY_iff P).mpr hyP)]
   unfold tweakedPubkey at hq
   rw [hxo, ht, hpt] at hq
   have hq' := Prod.mk.inj (Except.ok.inj hq)
   have hpar' : par = (c'.headD 0).toNat &&& 1 := by
-    rw [hpar, ← hq'.2]; unfold tweakPoint; rw [hev]
+    rw [hpar, ← hq'.2]; unfold tweakPoint; rw [hevP]
   -- reassemble the block
   cases c' with
   | nil => exfalso; simp at hcl; omega
@@ -128,6 +134,7 @@ theorem tapTweak_ok_iff (o : GroupOps α) (H : TagHash) (pk h : Bytes) (t : Int)
 theorem check_unliftable {H : TagHash} (q s c : Bytes)
     (hl : o.liftX (ofBE ((c.drop 1).take 32) : Nat) = none) :
     ∃ e, checkOutputPubkey o H q s c = .error e := by
+  have hl : o.liftX (ofBE ((c.drop 1).take (CONTROL_HEAD - 1)) : Nat) = none := hl
   unfold checkOutputPubkey
   cases lengthGate c.length with
   | error e => exact ⟨e, rfl⟩
@@ -155,7 +162,7 @@ theorem tweakedPubkey_unliftable {H : TagHash} (pre : UInt8) (xb h : Bytes) (hpr
 
 theorem check_tweak_refused {H : TagHash} (q s : Bytes) (c0 : UInt8) (xb path : Bytes) (m : Nat)
     (hx : xb.length = 32) (hp : path.length = 32 * m) (hm : m ≤ 128)
-    (hr : o.n ≤ (ofBE (H TAG_TWEAK (xb ++ foldPath H (leafHash H (c0.toNat &&& 254) s) path m)) : Nat)) :
+    (hr : o.n ≤ (ofBE (H TAG_TWEAK (xb ++ foldPath H (leafHash H (c0.toNat &&& LEAF_MASK) s) path m)) : Nat)) :
     checkOutputPubkey o H q s (c0 :: (xb ++ path)) = .error .tweak := by
   rw [check_eq o H q s c0 xb path m hx hp hm]
   unfold checkFields
@@ -213,7 +220,7 @@ theorem spelling_independent_aux (L : Lawful o G) {H : TagHash} (sec h : Bytes) 
 /-! ## every leaf version -/
 
 /-- what `input_script_sig` answers on a single-leaf tree, whatever the leaf version -/
-theorem iss_leaf {H : TagHash} (sec : Bytes) (v : Nat) (s s' c : Bytes)
+theorem iss_leaf {H : TagHash} (sec : Bytes) (hne : sec ≠ []) (v : Nat) (s s' c : Bytes)
     (h : inputScriptSig o H (some sec) (.leaf v s) 0 = .ok (s', c)) :
     s' = s ∧ ∃ par, par < 2 ∧ c = controlBlock par (v &&& LEAF_MASK) (xOnly sec) [] := by
   unfold inputScriptSig at h
@@ -224,7 +231,12 @@ theorem iss_leaf {H : TagHash} (sec : Bytes) (v : Nat) (s s' c : Bytes)
     rw [hk] at h
     simp only [leaves_leaf] at h
     have hx : xb = xOnly sec ∧ par < 2 := by
+      have htk : truthyKey (some sec) = some sec := by
+        cases sec with
+        | nil => exact absurd rfl hne
+        | cons _ _ => rfl
       unfold outputPubkeyAndInternalKey at hk
+      rw [htk] at hk
       simp only [Option.getD_some] at hk
       cases hq : tweakedPubkey o H sec (root H (.leaf v s)) with
       | error e => rw [hq] at hk; cases hk
@@ -249,5 +261,37 @@ theorem iss_leaf {H : TagHash} (sec : Bytes) (v : Nat) (s s' c : Bytes)
     simp at h
     obtain ⟨h1, h2⟩ := h
     exact ⟨h1.symm, par, hx.2, by rw [← h2, hx.1]⟩
+
+/-! ## the output key is committed to as an INTEGER (length is not) -/
+
+/-- one (script, control block) verifies against at most one output key of a given length: two keys of equal
+    length that both verify are equal.  (`check_output_pubkey` compares `int.from_bytes(q)`: `00 ‖ q` verifies
+    like `q` — known finding `taproot.check_output_pubkey.zero_padded_key_accepted` — so length is NOT committed.) -/
+theorem output_key_unique {H : TagHash} (q q' s c : Bytes) (hlen : q'.length = q.length)
+    (h : checkOutputPubkey o H q s c = .ok true) (h' : checkOutputPubkey o H q' s c = .ok true) : q' = q := by
+  obtain ⟨m, t, P, hg, ht, hl, hx, -⟩ := check_true_inv q s c h
+  obtain ⟨m', t', P', hg', ht', hl', hx', -⟩ := check_true_inv q' s c h'
+  rw [hg] at hg'; cases hg'
+  rw [ht] at ht'; cases ht'
+  rw [hl] at hl'; cases hl'
+  rw [hx] at hx'
+  have e : ofBE q = ofBE q' := by exact_mod_cast hx'
+  rw [← beBytes_ofBE q, ← beBytes_ofBE q', hlen, e]
+
+/-- … and the integer is what is compared: keys with one big-endian value verify alike -/
+theorem output_key_as_integer {H : TagHash} (q q' s c : Bytes) (hv : ofBE q' = ofBE q) :
+    checkOutputPubkey o H q' s c = checkOutputPubkey o H q s c := by
+  unfold checkOutputPubkey; rw [hv]
+
+/-! ## no internal key: the NUMS point -/
+
+/-- `None` and `b""` both mean BIP341's unspendable point `02 ‖ NUMS_X`, on the output side and in the control block -/
+theorem nums_fallback_aux (o : GroupOps α) (H : TagHash) (t : Tree) (i : Int) :
+    outputPubkey o H none (some t) = outputPubkey o H (some numsSec) (some t) ∧
+    outputPubkey o H (some []) (some t) = outputPubkey o H (some numsSec) (some t) ∧
+    inputScriptSig o H none t i = inputScriptSig o H (some numsSec) t i ∧
+    inputScriptSig o H (some []) t i = inputScriptSig o H (some numsSec) t i ∧
+    outputPubkey o H none none = .error .missing ∧ outputPubkey o H (some []) none = .error .missing :=
+  ⟨rfl, rfl, rfl, rfl, rfl, rfl⟩
 
 end Btc.Taproot
